@@ -309,7 +309,8 @@ def check_species(case, ctx):
             ctx.fail('C01.species/verbose-length:%s' % q, 'shape %r with %d misc models' % (parts.shape, nm))
             continue
         if q == 'q':
-            if np.all(parts > 0) and total > 0 and np.isfinite(total):
+            # subnormal factors or products carry fewer than 53 bits: not judged
+            if np.all(parts > 1e-290) and total > 1e-290 and np.isfinite(total):
                 ctx.close('C01.species/verbose-product:q', math.log(total), float(np.sum(np.log(parts))), rtol=1e-11, atol=1e-10)
             else:
                 ctx.label('q-not-positive-finite')
